@@ -93,7 +93,7 @@ func reference(pairs []pr) (accepted []bool, comps map[string][]string) {
 		byRoot[find(i)] = append(byRoot[find(i)], i)
 	}
 	for _, ms := range byRoot {
-		lo, hi := 1<<30, -1
+		lo, hi := 1<<30, -(1 << 30)
 		var names []string
 		for _, m := range ms {
 			if nodes[m].f.S < lo {
@@ -380,7 +380,7 @@ func packedPairs(c *enum.Ctx) {
 
 func run(c *enum.Ctx) {
 	packedPairs(c)
-	c.Rule("every multiset of <=3 feature pairs over the 15 intervals [s,e) 0<=s<e<=5 on one location (thorough: 0..6, 21 intervals) and every multiset of <=2 pairs over two locations, in every insertion order, every orientation of each pair, with the five pair filters (nil, all, none, by score, by the extent of the piles the images lie on), a pile of 2^k-1, 2^k, 2^k+1 (also 3*2^k, 10^j-1, 10^j, 10^j+1, 5*10^j) images (7..257) joined to a neighbouring pile by one feature added last, first or in the middle, the same after sequences of earlier Piles calls with other filters (partial, partial+nil, nil+partial; thorough also partial+none, all+partial), a repeated Piles call and a re-insertion of each pair in either orientation; every list of two hits over five intervals (shared and distinct ends) turned into pairs by NewPair on a packed sequence; reference = union-find over 'same location and overlapping or abutting'; distinct = (multiset, order, flips, filter); non-trivial = multisets with at least two features on one location that overlap or abut")
+	c.Rule("every multiset of <=3 feature pairs over the 15 intervals [s,e) 0<=s<e<=5 on one location (thorough: 0..6, 21 intervals) and every multiset of <=2 pairs over two locations, in every insertion order, every orientation of each pair, with the five pair filters (nil, all, none, by score, by the extent of the piles the images lie on), a pile of 2^k-1, 2^k, 2^k+1 (also 3*2^k, 10^j-1, 10^j, 10^j+1, 5*10^j) images (7..257) joined to a neighbouring pile by one feature added last, first or in the middle, the same after sequences of earlier Piles calls with other filters (partial, partial+nil, nil+partial; thorough also partial+none, all+partial), a repeated Piles call and a re-insertion of each pair in either orientation; every list of two hits over five intervals (shared and distinct ends) turned into pairs by NewPair on a packed sequence; every multiset again with all coordinates negative; a comb of 40 separate piles of which one feature bridges every run of 2..40 (then a feature in every former gap), and combs of ladder size to 257; reference = union-find over 'same location and overlapping or abutting'; distinct = (multiset, order, flips, filter); non-trivial = multisets with at least two features on one location that overlap or abut")
 	maxE := 5
 	if !c.Quick {
 		maxE = 6
@@ -430,6 +430,24 @@ func run(c *enum.Ctx) {
 	doSet := func(slot int, set []pr, full bool) {
 		states.Add(1)
 		nt := nontrivial(set)
+		{
+			// the same multiset left of the origin (every coordinate negative), in the given order and reversed
+			sh := make([]pr, len(set))
+			for i, p := range set {
+				sh[i] = pr{ft{p.A.L, p.A.S - 7, p.A.E - 7}, ft{p.B.L, p.B.S - 7, p.B.E - 7}}
+			}
+			rv := make([]pr, len(sh))
+			for i := range sh {
+				rv[i] = sh[len(sh)-1-i]
+			}
+			for _, o := range [][]pr{sh, rv} {
+				k := kase{Pairs: o, Flip: make([]bool, len(o)), Filter: 0, Redo: -1}
+				k.slot = slot
+				c.Eval()
+				trans.Add(int64(len(o)))
+				check(c, k)
+			}
+		}
 		// the cases of one multiset are de-duplicated here (orders of equal pairs coincide); cases of
 		// different multisets differ, so the distinct ones are counted, not kept
 		local := map[uint64]struct{}{}
@@ -538,6 +556,28 @@ func run(c *enum.Ctx) {
 			}
 			deep = append(deep, kase{Pairs: o, Flip: make([]bool, len(o)), Filter: 0, Before: []int{3}, Redo: 0, RedoFlip: true})
 		}
+	}
+	// the comb: 40 separate piles on A (teeth two wide, gaps two wide), then ONE feature that bridges `span`
+	// of them starting at tooth `first` (every span 2..40 x every first: the other teeth stay piles of their
+	// own), then a feature in every former gap of the merged pile; plus combs of ladder size bridged whole
+	comb := func(n, first, span int) kase {
+		var ps []pr
+		for i := 0; i < n; i++ {
+			ps = append(ps, pr{ft{0, 4 * i, 4*i + 2}, ft{1, 10 * i, 10*i + 3}})
+		}
+		ps = append(ps, pr{ft{0, 4*first + 1, 4*(first+span-1) + 1}, ft{2, 0, 5}}) // the bridge
+		for j := first; j < first+span-1; j++ {
+			ps = append(ps, pr{ft{0, 4*j + 2, 4*j + 3}, ft{2, 30 + 10*j, 35 + 10*j}})
+		}
+		return kase{Pairs: ps, Flip: make([]bool, len(ps)), Filter: 0, Redo: -1}
+	}
+	for span := 2; span <= 40; span++ {
+		for first := 0; first+span <= 40; first++ {
+			deep = append(deep, comb(40, first, span))
+		}
+	}
+	for _, n := range enum.Ladder(41, 257) {
+		deep = append(deep, comb(n+4, 2, n))
 	}
 	enum.Parallel(len(deep), func(i int) {
 		k := deep[i]
